@@ -380,8 +380,8 @@ Proof.
     intros nm d Hg. destruct (I1 nm d Hg) as [N Hin]. split; [exact N|]. cbn. rewrite app_nil_r. exact Hin.
 Qed.
 
-Theorem save_emits_bundle E s tr s' docs :
-  reachable E s tr -> b_objs_read s <> [] -> step E s OSave = (s', docs, ROk) ->
+Lemma save_emits_bundle_inv E s tr s' docs :
+  descr_inv tr (clear_buffers s) -> b_objs_read s <> [] -> step E s OSave = (s', docs, ROk) ->
   exists nm d pre seq u,
     b_bundling s = true /\ b_bundle_name s = Some nm /\
     docs = pre ++ [DEvent u (de_uid d) seq (merge_readings (b_read_cache s)) (filled_keys d)] /\
@@ -389,7 +389,7 @@ Theorem save_emits_bundle E s tr s' docs :
     keys_match d (merge_readings (b_read_cache s)) /\
     dget (b_seq s') nm = Some (seq + 1)%Z /\ b_bundling s' = false.
 Proof.
-  intros Hr Hne Hs. apply descr_inv_reachable in Hr.
+  intros Hr Hne Hs.
   apply step_inv in Hs. destruct Hs as (r0 & He & -> & Hr0). symmetry in Hr0. apply to_result_ok in Hr0. subst r0.
   cbn [exec] in He. unfold save in He. rewrite bind_get_eq, bind_guard_eq in He.
   change (b_bundling (clear_buffers s)) with (b_bundling s) in He.
@@ -420,6 +420,17 @@ Proof.
   split; [reflexivity|]. split; [exact B1|]. split; [exact C3|].
   split; [rewrite dget_dset_eq; reflexivity | reflexivity].
 Qed.
+
+Theorem save_emits_bundle E s tr s' docs :
+  reachable E s tr -> b_objs_read s <> [] -> step E s OSave = (s', docs, ROk) ->
+  exists nm d pre seq u,
+    b_bundling s = true /\ b_bundle_name s = Some nm /\
+    docs = pre ++ [DEvent u (de_uid d) seq (merge_readings (b_read_cache s)) (filled_keys d)] /\
+    no_event pre /\ In (DDescr d) (tr ++ pre) /\ de_name d = nm /\ dget (b_descriptors s') nm = Some d /\
+    keys_match d (merge_readings (b_read_cache s)) /\
+    dget (b_seq s') nm = Some (seq + 1)%Z /\ b_bundling s' = false.
+Proof. intros Hr. apply save_emits_bundle_inv. apply (descr_inv_reachable E). exact Hr. Qed.
+
 
 (* ------------------------------------------------------------------ evolution of the bundle; collisions *)
 
